@@ -458,6 +458,69 @@ impl C17 {
             }
         }
     }
+    /// Gridded layout -> raw export of a library in which some sinks are wrapped cells of a previously imported raw library (`add_rawlib` +
+    /// `RawLayoutPtr`): the export goes INTO that raw library, which therefore already has content. The result must list every cell once,
+    /// the wrapped ones included, each after everything it instantiates.
+    fn embedded_tetris_raw(&self, cx: &mut Cx, g: &Graph, listing: &[usize], class: &str) {
+        use layout21tetris as tet;
+        cx.eval();
+        let b = super::c08::gen_stack(&mut Rng::new(7));
+        let stack = match b.stack.clone().validate() {
+            Ok(s) => s,
+            Err(_) => {
+                cx.inconclusive("C17 raw-export leg: stack did not validate");
+                return;
+            }
+        };
+        let mut lib = tetris_lib(g, listing);
+        // wrap: sinks with i % 3 == 0 become raw cells living in one raw library
+        let mut rawlib = raw::Library::new("imported", stack.units);
+        rawlib.layers = stack.rawlayers.clone().unwrap();
+        let wrapped_idx: Vec<usize> = (0..g.len()).filter(|i| g[*i].is_empty() && i % 3 == 0).collect();
+        if wrapped_idx.is_empty() {
+            cx.count("tetris_raw_export_no_sink_to_wrap");
+        }
+        let rawcells: Vec<Ptr<raw::Cell>> = wrapped_idx.iter().map(|i| rawlib.cells.add(raw::Cell::from(raw::Layout { name: format!("c{}", i), insts: vec![], elems: vec![], annotations: vec![] }))).collect();
+        let rawlibptr = lib.add_rawlib(rawlib);
+        for (i, rc) in wrapped_idx.iter().zip(rawcells.iter()) {
+            // every tetris cell object named c<i> (listed, or reached through instances) becomes the wrapped view
+            let all = lib.dep_order();
+            for c in all.iter() {
+                let mut c = c.write().unwrap();
+                if idx_of(&c.name) == *i {
+                    c.layout = None;
+                    c.abs = None;
+                    c.raw = Some(tet::cell::RawLayoutPtr { outline: tet::outline::Outline::rect(2, 2).unwrap(), metals: 0, lib: rawlibptr.clone(), cell: rc.clone() });
+                }
+            }
+        }
+        match guard(|| tet::conv::raw::RawExporter::convert(lib, stack)) {
+            Err(c) => cx.violation(&format!("{}|tetris-raw-export|panic|{}", class, c.norm_msg()), json!({"graph": g, "listing": listing, "panic": c.msg})),
+            Ok(Err(e)) => cx.violation(&format!("{}|tetris-raw-export|acyclic-graph-rejected", class), json!({"graph": g, "listing": listing, "wrapped": wrapped_idx, "error": format!("{:?}", e).chars().take(300).collect::<String>()})),
+            Ok(Ok(out)) => {
+                let out = out.read().unwrap();
+                let seq: Vec<usize> = out.cells.iter().map(|c| idx_of(&c.read().unwrap().name)).collect();
+                // what the result's own instances point at must be in the list, earlier
+                let mut bad = None;
+                for (k, c) in out.cells.iter().enumerate() {
+                    if let Some(l) = &c.read().unwrap().layout {
+                        for inst in &l.insts {
+                            match out.cells.iter().position(|d| *d == inst.cell) {
+                                Some(at) if at < k => {}
+                                Some(_) => bad = Some("instantiated-cell-listed-later"),
+                                None => bad = Some("instantiated-cell-not-in-the-library"),
+                            }
+                        }
+                    }
+                }
+                match (bad, judge(g, listing, Some(&seq))) {
+                    (Some(w), _) => cx.violation(&format!("{}|tetris-raw-export|{}", class, w), json!({"graph": g, "listing": listing, "wrapped": wrapped_idx, "result": seq})),
+                    (None, Err(w)) => cx.violation(&format!("{}|tetris-raw-export|{}", class, w), json!({"graph": g, "listing": listing, "wrapped": wrapped_idx, "result": seq})),
+                    (None, Ok(())) => cx.count(if wrapped_idx.is_empty() { "tetris_raw_export_orders_valid" } else { "tetris_raw_export_into_populated_library_orders_valid" }),
+                }
+            }
+        }
+    }
     fn embedded_gds(&self, cx: &mut Cx, g: &Graph, listing: &[usize], class: &str) {
         cx.eval();
         let lib = gds_lib(g, listing, &mut cx.rng);
@@ -619,6 +682,7 @@ impl Prop for C17 {
                     self.embedded_raw(cx, &g, &l, "embedded", 3);
                     self.embedded_gds(cx, &g, &l, "embedded");
                     self.embedded_tetris(cx, &g, &l, "embedded", 7);
+                    self.embedded_tetris_raw(cx, &g, &l, "embedded");
                 }
                 cx.sample(|| json!({"dag": g, "listings": 24}));
             }
@@ -637,6 +701,9 @@ impl Prop for C17 {
                 self.embedded_raw(cx, &g, &listing, "embedded", 3);
                 self.embedded_gds(cx, &g, &listing, "embedded");
                 self.embedded_tetris(cx, &g, &listing, "embedded", 7);
+                if n <= 40 {
+                    self.embedded_tetris_raw(cx, &g, &listing, "embedded");
+                }
                 cx.sample(|| json!({"nodes": n, "edges": g.iter().map(|d| d.len()).sum::<usize>(), "listing_head": listing.iter().take(8).collect::<Vec<_>>()}));
             }
             "embedded-lock-state" => {
